@@ -820,8 +820,9 @@ where
         // only check surrogate here, and we will check the code pointer later when use
         // `codepoint_to_utf8`
         if (0xD800..0xDC00).contains(&point1) {
-            // parse the second utf8 code point of surrogate
-            let point2 = if let Some(asc) = self.read.next_n(6) {
+            // parse the second utf8 code point of surrogate, it is only consumed when it is
+            // the low part of the pair
+            let point2 = if let Some(asc) = self.read.peek_n(6) {
                 if asc[0] != b'\\' || asc[1] != b'u' {
                     if self.cfg.utf8_lossy {
                         return Ok(0xFFFD);
@@ -845,9 +846,11 @@ where
                     return Ok(0xFFFD);
                 } else {
                     // invalid surrogate
+                    self.read.eat(6);
                     return perr!(self, InvalidSurrogateUnicodeCodePoint);
                 }
             }
+            self.read.eat(6);
 
             Ok((((point1 - 0xd800) << 10) | low_bit).wrapping_add(0x10000))
         } else if (0xDC00..0xE000).contains(&point1) {
